@@ -44,7 +44,8 @@ CLAIMED = {
     "C05": dict(
         text="Theorems: the normalised plane test has the sign of the exact side value and is membership in the face half-spaces (convex); the norm "
              "tests of Sphere/Ellipsoid are the quadratic membership tests; the 3-D winding rule (tie-breaking included) is independent of triangle order and of each triangle's starting vertex, "
-             "and reversing all orientations negates the chain sum (partial: "
+             "reversing all orientations negates the chain sum, and in generic position the chain sum of ANY triangle list is the signed number of "
+             "piercings of the surface by the line through the point parallel to z (ray casting; built on the C06 triangle theorem) (partial: "
              "equality with membership for arbitrary closed meshes is not proved); Paramcoq transfer of the executable models. Tie: the faithful "
              "winding-number model and the independent exact specifications (half-spaces, signed tetrahedron covering number with generic apex, "
              "exact squared distance to the core for spheropolyhedra) are evaluated in exact rationals on the same shapes/points as the implementation, "
